@@ -53,3 +53,8 @@ check("C06", "exploration",
       "runtime monitor: shared-memory occupancy word per lock path, updated atomically inside every critical section by every participant of every process (online, exact overlap detection); Go race detector in every worker",
       "Several processes x many goroutines acquire 2-3 lock paths through every entry point the statement names (OpenFile in three modes, Open, Create, Edit, Mutex.Lock, inside Transform's function, inside Write's reader) with dwell times and hook delays; any instant at which a writer is inside together with anyone else is seen by the atomic add itself. Evidence: acquisitions per entry point, contended acquisitions, maximum simultaneous readers (>= 2 required).",
       "Trusted: atomic operations on a MAP_SHARED page; flock semantics of the kernel are what is being observed. Interleavings are sampled.")
+
+check("C07", "exploration",
+      "offline checker over recorded client-boundary histories: porcupine linearizability check against a register model (per file), torn-content classifier, chain checker for large Transform/Read histories; plus strace errno injection / RLIMIT_FSIZE short writes / failing function on a single Transform with byte-exact before/after comparison",
+      "Multi-process x multi-goroutine clients record {client, op, unique payload ids, call, return} with CLOCK_MONOTONIC around the real Read/Write/Transform (delays injected at the lockedfile hooks, slow readers via Open+ReadAll); every per-file history plus a final quiescent read is checked. Fault part: every file operation of Transform (enumerated by a dry run) is made to fail once with each applicable errno, for all old/new length relations; after an error the file must equal the old bytes, after nil the new ones.",
+      "Trusted: porcupine v1.3.0; CLOCK_MONOTONIC shared by all processes; strace injection as in C12. Schedules are sampled; the fault part is exhaustive at file-operation granularity for single faults (a fault during the rollback itself would be a second fault). Level: exploration for schedules, fault enumeration for the Transform part.")
